@@ -29,6 +29,40 @@ class Table:
     def expand(self, e):
         return self.en.expand(e)
 
+    def truth(self, p, expr):
+        """Truth of a boolean expression as decided by the conditions of
+        path p (three-valued: True / False / None)."""
+        if isinstance(expr, ast.Constant):
+            return bool(expr.value)
+        if isinstance(expr, ast.Name) and isinstance(
+                self.en.defs.get(expr.id), (ast.BoolOp, ast.UnaryOp,
+                                            ast.Compare)):
+            r = self.truth(p, self.en.defs[expr.id])
+            if r is not None:
+                return r
+        if isinstance(expr, ast.UnaryOp) and isinstance(expr.op, ast.Not):
+            r = self.truth(p, expr.operand)
+            return None if r is None else (not r)
+        if isinstance(expr, ast.BoolOp):
+            vals = [self.truth(p, v) for v in expr.values]
+            if isinstance(expr.op, ast.And):
+                if any(v is False for v in vals):
+                    return False
+                return True if all(v is True for v in vals) else None
+            if any(v is True for v in vals):
+                return True
+            return False if all(v is False for v in vals) else None
+        e2, flip = self.en._norm_test(expr)
+        norm = self.en._truth_equivalent(e2)
+        if norm is not None:
+            r = self.truth(p, norm)
+            return None if r is None else (r != flip)
+        key = U(e2)
+        for c in p.conds:
+            if c.kind == 'test' and U(c.expr) == key:
+                return c.pol != flip
+        return None
+
     def raised_class(self, p):
         """resolved class of a raise outcome"""
         if p.outcome.kind != 'raise' or p.outcome.expr is None:
